@@ -4,6 +4,7 @@ import (
 	"fmt"
 	"math"
 	"reflect"
+	"strings"
 
 	"go.flow.arcalot.io/pluginsdk/schema"
 	"verif/harness/sup"
@@ -44,6 +45,46 @@ func (in *instance) argFor(op, tok string, m flat) (any, error) {
 	switch in.kind {
 	case "steps":
 		return nil, nil // the input of the step / signal is fixed (callStep)
+	case "chain":
+		switch tok {
+		case "scalar":
+			return int(5), nil
+		case "badscalar":
+			return int(100), nil // the last object's property is at most 10
+		case "nested":
+			return map[string]any{"next": map[string]any{"next": map[string]any{"next": map[string]any{"value": int(5)}}}}, nil
+		}
+	case "compat2":
+		if p, ok := in.peers[tok]; ok {
+			return p, nil
+		}
+	case "objnest":
+		// n = root.n, t = limits.u, sa / sb = limits.burst.f / .w; "limits" is given iff the token says so
+		limits := map[string]any{}
+		if m.T >= 0 {
+			limits["u"] = int(m.T)
+		}
+		if m.Sa >= 0 || m.Sb >= 0 {
+			b := map[string]any{}
+			if m.Sa >= 0 {
+				b["f"] = int(m.Sa)
+			}
+			if m.Sb >= 0 {
+				b["w"] = int(m.Sb)
+			}
+			limits["burst"] = b
+		}
+		if op == "unsermid" {
+			return limits, nil
+		}
+		a := map[string]any{}
+		if m.N >= 0 {
+			a["n"] = int(m.N)
+		}
+		if strings.HasPrefix(tok, "lim_") {
+			a["limits"] = limits
+		}
+		return a, nil
 	case "objdep":
 		// paths n, t, sa, sb stand for the fields a, b, c, d
 		if (op == "valid" || op == "ser") && in.origin != "rebuilt" {
@@ -278,7 +319,13 @@ func (in *instance) call(op, tok string, m flat) (o obs) {
 		o.FlatErr = err.Error()
 		return o
 	}
-	before := canon(arg)
+	snapshot := func() string {
+		if in.kind == "compat2" {
+			return "" // a shared schema value: its description is compared once per trial, not per call
+		}
+		return canon(arg)
+	}
+	before := snapshot()
 	var res any
 	var cerr error
 	hasValue := true
@@ -306,6 +353,8 @@ func (in *instance) call(op, tok string, m flat) (o obs) {
 			switch op {
 			case "unser":
 				res, cerr = in.target.Unserialize(arg)
+			case "unsermid":
+				res, cerr = in.scope.Objects()["mid"].Unserialize(arg)
 			case "ser":
 				res, cerr = in.target.Serialize(arg)
 			case "valid":
@@ -317,7 +366,7 @@ func (in *instance) call(op, tok string, m flat) (o obs) {
 			}
 		}
 	})
-	after := canon(arg)
+	after := snapshot()
 	o.ArgSame = before == after
 	if !o.ArgSame {
 		o.ArgDiff = before + "  ->  " + after
@@ -337,6 +386,96 @@ func (in *instance) call(op, tok string, m flat) (o obs) {
 	}
 	// abstraction
 	switch in.kind {
+	case "chain":
+		if !hasValue {
+			return o
+		}
+		var cur any = res
+		for {
+			mp, ok := cur.(map[string]any)
+			if !ok || len(mp) != 1 {
+				o.FlatErr = fmt.Sprintf("chain result %s", o.Canon)
+				return o
+			}
+			if v, leaf := mp["value"]; leaf {
+				i, ok := toInt(v)
+				if !ok {
+					o.FlatErr = fmt.Sprintf("chain leaf %T", v)
+				}
+				o.N = i
+				return o
+			}
+			cur = mp["next"]
+		}
+	case "compat2":
+		// verdict only
+	case "objnest":
+		f := emptyFlat
+		midFlat := func(mp map[string]any) {
+			for k, v := range mp {
+				switch k {
+				case "u":
+					i, ok := toInt(v)
+					if !ok {
+						o.FlatErr = fmt.Sprintf("objnest u has value %T", v)
+					}
+					f.T = i
+				case "burst":
+					b, ok := v.(map[string]any)
+					if !ok {
+						o.FlatErr = fmt.Sprintf("objnest burst has value %T", v)
+						return
+					}
+					for bk, bv := range b {
+						i, ok := toInt(bv)
+						if !ok || (bk != "f" && bk != "w") {
+							o.FlatErr = fmt.Sprintf("objnest burst.%s has value %T", bk, bv)
+						}
+						if bk == "f" {
+							f.Sa = i
+						} else {
+							f.Sb = i
+						}
+					}
+				default:
+					o.FlatErr = "objnest: unexpected key " + k + " in limits"
+				}
+			}
+		}
+		switch x := res.(type) {
+		case Settings:
+			if x.N != nil {
+				f.N = *x.N
+			}
+			midFlat(x.Limits)
+		case map[string]any:
+			if op == "unsermid" {
+				midFlat(x)
+				break
+			}
+			for k, v := range x {
+				switch k {
+				case "n":
+					i, ok := toInt(v)
+					if !ok {
+						o.FlatErr = fmt.Sprintf("objnest n has value %T", v)
+					}
+					f.N = i
+				case "limits":
+					mp, ok := v.(map[string]any)
+					if !ok {
+						o.FlatErr = fmt.Sprintf("objnest limits has value %T", v)
+						break
+					}
+					midFlat(mp)
+				default:
+					o.FlatErr = "objnest: unexpected key " + k
+				}
+			}
+		default:
+			o.FlatErr = fmt.Sprintf("objnest result %T", res)
+		}
+		o.M = f
 	case "objdep":
 		if !hasValue {
 			o.M = m
